@@ -51,15 +51,16 @@ NumTok(s, p) ==
   LET sgn == IF s[p] \in {43, 45} THEN 1 ELSE 0
       q == p + sgn
       hex == q + 1 <= Len(s) /\ s[q] = 48 /\ s[q+1] = 120
-      d == IF hex THEN Digits(s, q + 2, 16, <<>>, 0) ELSE Digits(s, q, 10, <<>>, 0)
-  IN IF d.n = 0 THEN [ok |-> FALSE]
-     ELSE IF ~hex /\ d.pos <= Len(s) /\ s[d.pos] \in {46, 101, 69}
-     THEN \* float literal: digits '.' digits? exponent?
-          LET a == IF s[d.pos] = 46 THEN SkipDigits(s, d.pos + 1) ELSE d.pos
+      e == SkipDigits(s, q)        \* end of the leading decimal digits
+  IN IF ~hex /\ e > q /\ e <= Len(s) /\ s[e] \in {46, 101, 69}
+     THEN \* float literal: digits '.' digits? exponent?  (its value is not computed: floats are compared by width only)
+          LET a == IF s[e] = 46 THEN SkipDigits(s, e + 1) ELSE e
               b == IF a <= Len(s) /\ s[a] \in {101, 69}
                    THEN SkipDigits(s, IF a + 1 <= Len(s) /\ s[a+1] \in {43, 45} THEN a + 2 ELSE a + 1) ELSE a
           IN [ok |-> TRUE, pos |-> b, tok |-> [t |-> "float"]]
-     ELSE [ok |-> TRUE, pos |-> d.pos, tok |-> [t |-> "num", neg |-> (sgn = 1 /\ s[p] = 45 /\ d.bits # <<>>), bits |-> d.bits, signed |-> (sgn = 1)]]
+     ELSE LET d == IF hex THEN Digits(s, q + 2, 16, <<>>, 0) ELSE Digits(s, q, 10, <<>>, 0) IN
+          IF d.n = 0 THEN [ok |-> FALSE]
+          ELSE [ok |-> TRUE, pos |-> d.pos, tok |-> [t |-> "num", neg |-> (sgn = 1 /\ s[p] = 45 /\ d.bits # <<>>), bits |-> d.bits, signed |-> (sgn = 1)]]
 RECURSIVE IdEnd(_, _)
 IdEnd(s, p) == IF p <= Len(s) /\ IsIdChar(s[p]) THEN IdEnd(s, p + 1) ELSE p
 RECURSIVE Toks(_, _, _)
